@@ -156,3 +156,20 @@ union U = T | V
 type Query { a: Int  t: T  ts: [T!]!  u: U  i: I  v: V }
 type Subscription { a: Int  t: T }
 ";
+
+/// directives for every single executable location, for all of them, repeatable or not, one with
+/// no executable location at all
+pub const DIRS: &str = "
+directive @onQuery on QUERY
+directive @onMutation on MUTATION
+directive @onSubscription on SUBSCRIPTION
+directive @onField on FIELD
+directive @onFragmentDefinition on FRAGMENT_DEFINITION
+directive @onFragmentSpread on FRAGMENT_SPREAD
+directive @onInlineFragment on INLINE_FRAGMENT
+directive @everywhere on QUERY | MUTATION | SUBSCRIPTION | FIELD | FRAGMENT_DEFINITION | FRAGMENT_SPREAD | INLINE_FRAGMENT
+directive @rep repeatable on QUERY | MUTATION | SUBSCRIPTION | FIELD | FRAGMENT_DEFINITION | FRAGMENT_SPREAD | INLINE_FRAGMENT
+directive @fq(x: Int) on FIELD | QUERY
+directive @typeSystemOnly on OBJECT | FIELD_DEFINITION
+type Mutation { a: Int }
+";
